@@ -13,7 +13,7 @@ NAMES = {"coh", "ccoh", "Gxx", "Gyy", "Gxy", "Gyx", "csd", "GyyCx", "GyyRx", "Gy
 def degenerate(item):
     """Zero, constant and identical channels through the real analyzer: bounds and identities in floats (exactly representable cases)."""
     import speckit
-    kind, order, backend, sched = item
+    kind, order, backend, sched, first = item
     N = 256
     rng = np.random.default_rng(3)
     a = rng.standard_normal(N)
@@ -22,6 +22,11 @@ def degenerate(item):
     probs = []
     with np.errstate(all="ignore"):
         r = speckit.compute_spectrum(np.vstack([x, y]), 1.0, order=order, backend=backend, scheduler=sched, Jdes=15, Kdes=4, olap=0.5)
+        if first == "errors_first":          # the identities must not depend on which attributes were looked at before
+            for nm in ("Gxy_dev", "Hxy_dev", "coh_dev", "coh_error", "Gxx_dev"):
+                getattr(r, nm)
+        elif first == "frame_first":
+            r.to_dataframe()
         coh = np.asarray(r.coh)
         if not np.all(np.isfinite(coh)) or coh.min() < 0 or coh.max() > 1 + 1e-9:
             probs.append(("coherence_in_unit_interval", float(np.nanmax(coh)) if coh.size else 0.0))
@@ -45,15 +50,15 @@ def run(tier):
     R.replay_grid(V, PID, [c for c in cases if c["iscsd"]], NAMES, "grid")
     R.run_traces(V, PID, tier, common.seed(),
                  lambda rnd: [("swap",), ("alone",), ("gain", rnd.choice([-2.5, 0.3, 7.0]))])
-    items = [(k, o, b, s) for k in ("zero_y", "zero_x", "const", "identical", "negated", "both_zero") for o in (-1, 0, 1, 2)
-             for b in ("numba", "numpy") for s in ("ltf", "vectorized_ltf")]
+    items = [(k, o, b, s, f) for k in ("zero_y", "zero_x", "const", "identical", "negated", "both_zero") for o in (-1, 0, 1, 2)
+             for b in ("numba", "numpy") for s in ("ltf", "vectorized_ltf") for f in ("values_first", "errors_first", "frame_first")]
     out = common.pmap(degenerate, items, chunksize=4)
     for it, probs in zip(items, out):
         V.case({"degenerate": it}, True)
         for clause, val in probs:
             V.violation(f"{PID}|degenerate|{it[0]}|{clause}|{it[2]}",
                         {"kind": "degenerate", "item": it, "clause": clause, "value": val,
-                         "message": f"{clause} fails for {it[0]} channels (order={it[1]}, backend={it[2]}, scheduler={it[3]}): {val}"})
+                         "message": f"{clause} fails for {it[0]} channels (order={it[1]}, backend={it[2]}, scheduler={it[3]}, access {it[4]}): {val}"})
     V.assumptions += ["coherence is taken as 0 where a channel has no power (the code's convention)",
                       "identities at scale are asserted on Q 2^20 quantised values normalised per bin (4-8 quanta)"]
     return V.finish(rule="cases = every two-channel result of Result.tla's grid x cross-spectral attributes; recorded analyses (4 schedulers x 4 windows x orders x backends) with swap/alone/gain variants, every bin; degenerate records; distinct by content hash")
